@@ -14,6 +14,13 @@ func (x *Exec) compOf(h *Heap, name string, s Sort) *Term {
 	if t, ok := h.comps[name]; ok {
 		return t
 	}
+	if h.epoch != "" && !(strings.HasPrefix(name, "G!") && x.eng.globalIsConstant(name)) {
+		t := x.w.declConst("H"+h.epoch+"!"+name, s)
+		h.comps[name] = t
+		x.compSorts[name] = s
+		x.writes[name] = true
+		return t
+	}
 	t := x.w.declConst("H0!"+name, s)
 	h.comps[name] = t
 	x.compSorts[name] = s
